@@ -12,21 +12,23 @@ VARIABLES desc, term, todo, pc
 vars == <<desc, term, todo, pc>>
 
 AnyCls == <<"Dense", "Diag", "ConstDiag", "Toeplitz", "Tri", "Chol", "Root", "LowRankRoot", "Kron", "Kron3", "KronAddedDiag", "SumKron", "AddedDiag", "LRRAddedDiag",
-            "Sum", "PsdSum", "Matmul", "Mul", "ConstMul", "BlockDiag", "BlockInter", "SumBatch", "BatchRepeat", "Cat", "Interp", "Masked", "SumInterp", "MatmulTri", "User">>
+            "Sum", "PsdSum", "Matmul", "Mul", "ConstMul", "BlockDiag", "BlockInter", "SumBatch", "BatchRepeat", "Cat", "Interp", "Masked", "SumInterp", "MatmulTri", "User", "ConstMulBc">>
 PsdCls == <<"Dense", "Diag", "ConstDiag", "Toeplitz", "Chol", "Root", "Kron", "KronAddedDiag", "SumKron", "AddedDiag", "LRRAddedDiag", "Sum", "PsdSum", "Mul", "ConstMul",
-            "BlockDiag", "BlockInter", "BatchRepeat">>
-Batches == << <<>>, <<2>>, <<2, 1>> >>
+            "BlockDiag", "BlockInter", "BatchRepeat", "ConstMulBc">>
+Batches == << <<>>, <<2>>, <<2, 1>>, <<3, 2>> >>
 DepthOf(c) == IF c \in G_LeafClasses THEN 0 ELSE 1
 
 Init ==
-  /\ \E mode \in {"any", "psd"}, ci \in 1..29, bi \in 1..Len(Batches), dp \in {0, 1} :
+  /\ \E mode \in {"any", "psd"}, ci \in 1..30, bi \in 1..Len(Batches), dp \in {0, 1} :
        LET cls == IF mode = "any" THEN AnyCls[ci] ELSE PsdCls[ci] IN
        /\ ci <= (IF mode = "any" THEN Len(AnyCls) ELSE Len(PsdCls))
        /\ ((ci + bi + dp) % NParts = Part)
        /\ (dp = 1 => cls \notin G_LeafClasses)                     \* dp = 1: one more level of nesting
-       /\ (Tier = "quick" => (bi <= 2 /\ (dp = 0 \/ (ci + bi) % 3 = 0)))
+       \* the two-dimensional batch <<3, 2>> only for the class whose constant broadcasts along the inner batch dimension
+       /\ (bi = 4 <=> cls = "ConstMulBc")
+       /\ (Tier = "quick" => ((bi <= 2 \/ bi = 4) /\ (dp = 0 \/ (ci + bi) % 3 = 0)))
        /\ desc = [mode |-> mode, cls |-> cls, b |-> Batches[bi], depth |-> DepthOf(cls) + dp, n |-> IF mode = "psd" THEN 3 ELSE 3, m |-> IF mode = "any" /\ cls \notin G_SquareOnly /\ (ci % 2 = 0) THEN 2 ELSE 3,
-                  seed |-> ci * 11 + bi * 3 + dp, id |-> ((IF mode = "any" THEN 0 ELSE 1) * 64 + ci) * 8 + bi * 2 + dp]
+                  seed |-> ci * 11 + bi * 3 + dp, id |-> ((IF mode = "any" THEN 0 ELSE 1) * 64 + ci) * 16 + bi * 2 + dp]
   /\ term = <<>> /\ todo = <<>> /\ pc = "build"
 
 Build ==
